@@ -1,21 +1,22 @@
-\* C02 reciprocity -- quick
+\* C06 translation equivariance -- quick
 CONSTANTS
   ShiftStyle = "pad" LevelStyle = "match" TruncStyle = "exact" AnalyticStyle = "outer" BCubic = "plus"
-  Sizes = {302, 403}
-  Cells = {11, 23}
-  Halos = {99, 0, 1, 2, 3, 4}
+  Sizes = {302, 402}
+  Cells = {23}
+  Halos = {0}
   ModeSet = {202, 402, 1212}
   NZs = {3}
   LevelLists = "single"
   Tabs = {1}
   Analytic = {FALSE}
-  Family = "recip"
+  Family = "translate"
 INIT Init
 NEXT Next
 CHECK_DEADLOCK FALSE
 INVARIANT StagesAgree
 INVARIANT ShapeOrError
-INVARIANT ErrorsAreDeclared
-INVARIANT Recip
-INVARIANT RegularRun
+INVARIANT TranslateSource
+INVARIANT TranslateTower
+INVARIANT PointReflect
+INVARIANT Recentre
 INVARIANT Emit
